@@ -10,6 +10,7 @@
 //! the real `load_all` on *every prefix* of the recorded write sequence (bucket PUTs, metadata PUT,
 //! obsolete DELETEs); the decoded write sequence is what the model's `flw` line receives.
 
+mod explore;
 mod ops;
 mod stress;
 mod world;
@@ -205,6 +206,44 @@ fn main() {
 
     if let Some(rp) = &args.replay {
         let ops = read_replay(rp);
+        if ops.first().is_some_and(|l| l.starts_with("conc ")) {
+            // a schedule found by the explorer: run it again (three times: real threads)
+            match explore::Case::parse(&ops) {
+                Ok((case, sched)) => {
+                    for _ in 0..3 {
+                        let mut cache = std::collections::HashMap::new();
+                        let mut anomalies = 0;
+                        let r = loop {
+                            match explore::run_schedule(&case, &sched, &mut cache) {
+                                explore::Outcome::Retry => continue,
+                                x => break x,
+                            }
+                        };
+                        report.evaluations += 1;
+                        match r {
+                            explore::Outcome::Complete(run) => {
+                                if let Some(f) = explore::check_run(&case, &run, &mut model, &mut anomalies) {
+                                    if f.model {
+                                        report.disagreement(&f.what, &ops, &f.expected, &f.observed);
+                                    } else {
+                                        report.oracle_failure(&f.key, &f.what, &ops, &f.expected, &f.observed);
+                                    }
+                                    break;
+                                }
+                            }
+                            explore::Outcome::Stuck(e) => {
+                                report.oracle_failure("threads:stuck", &e, &ops, "schedule executable", "stuck");
+                                break;
+                            }
+                            explore::Outcome::Retry => unreachable!(),
+                        }
+                    }
+                }
+                Err(e) => report.notes.push(format!("bad concurrent replay: {e}")),
+            }
+            report.write(&args);
+            return;
+        }
         let out = run_ops(&ops, &mut model);
         record(&mut report, &out, &mut model, "replay");
         report.write(&args);
@@ -323,6 +362,50 @@ fn main() {
         if let Some((what, e, o, logs)) = so.failure {
             report.oracle_failure("threads", &format!("{what} (real threads; not deterministically replayable)"), &logs, &e, &o);
         }
+    }
+    // L3: systematic interleavings of real threads at the hook points
+    if args.replay.is_none() {
+        let t0 = std::time::Instant::now();
+        let thorough_x = args.thorough() || args.focus.is_some();
+        let deadline = t0 + std::time::Duration::from_secs(if args.focus.is_some() { 120 } else { args.budget(20, 900) });
+        let per_case = args.budget(6_000, 400_000);
+        let mut total = 0u64;
+        let mut anomalies = 0u64;
+        let mut exhaustive = true;
+        for (ci, case) in explore::cases(thorough_x).iter().enumerate() {
+            if std::time::Instant::now() > deadline {
+                exhaustive = false;
+                report.notes.push(format!("schedule exploration stopped at case {ci} (time limit)"));
+                break;
+            }
+            let out = explore::explore(case, per_case, deadline, &mut model);
+            total += out.schedules;
+            anomalies += out.anomalies;
+            exhaustive &= !out.truncated;
+            report.hit("sched:cases");
+            report.hit_n("sched:schedules", out.schedules);
+            report.hit_n("sched:blocked_probes", out.retries);
+            report.hit_n(&format!("sched:threads={}", case.progs.len()), out.schedules);
+            if out.truncated {
+                report.hit("sched:cases_truncated");
+            }
+            report.model_compared += out.model_lines;
+            report.evaluations += out.schedules;
+            if ci < 2 {
+                report.sample(json!({"concurrent_case": case.lines(&[]), "schedules": out.schedules}));
+            }
+            if let Some((f, lines)) = out.finding {
+                if f.model {
+                    report.disagreement(&f.what, &lines, &f.expected, &f.observed);
+                } else {
+                    report.oracle_failure(&f.key, &f.what, &lines, &f.expected, &f.observed);
+                }
+            }
+        }
+        report.measured.insert("schedules_explored_on_real_threads".into(), json!(total));
+        report.measured.insert("schedule_exploration_exhaustive_for_listed_cases".into(), json!(exhaustive));
+        report.measured.insert("same_pair_result_anomalies (returned value not explained by a sequential order while two threads work on the same (key,id); see notes/C10.md)".into(), json!(anomalies));
+        report.measured.insert("schedule_exploration_seconds".into(), json!(t0.elapsed().as_secs_f64()));
     }
     report.notes.push("measured only: real threads / interleavings are not exercised (hooks H1/H2 absent); see notes/C10.md".into());
     report.write(&args);
